@@ -65,7 +65,18 @@ where
 
             let iface = {
                 if req.method == "org.varlink.service.GetInterfaceDescription" {
-                    let val = req.parameters.clone().unwrap_or_default();
+                    let val = match req.parameters.clone() {
+                        Some(val) => val,
+                        None => {
+                            // what every varlink service answers
+                            let mut call = Call::new(&mut client_writer, &req);
+                            varlink::CallTrait::reply_invalid_parameter(
+                                &mut call,
+                                "parameters".into(),
+                            )?;
+                            continue;
+                        }
+                    };
                     let args: GetInterfaceDescriptionArgs = from_value(val)?;
                     args.interface.into()
                 } else {
